@@ -4,7 +4,8 @@ package webrtc
 //
 // Model-based sequences. A case is an initial Configuration and 1..6 operations
 // (SetConfiguration with every field independently unchanged / zero / changed,
-// "create a local description", Close). Before every SetConfiguration the harness takes a
+// "create a local description" (stays pending), "complete an offer/answer exchange with a
+// throw-away peer" in either role (local description becomes current), Close). Before every SetConfiguration the harness takes a
 // snapshot of GetConfiguration (certificates by their DER bytes) and evaluates an independent
 // reference predicate "the argument tries to change an immutable setting":
 //   peer identity / bundle policy / RTCP mux policy: non-zero and different from the snapshot;
@@ -52,8 +53,12 @@ type vfC39Cfg struct {
 }
 
 type vfC39Step struct {
-	Op  string   `json:"op"` // set | local | close
+	Op  string   `json:"op"` // set | local | exchange | close
 	Cfg vfC39Cfg `json:"cfg"`
+	// exchange: complete an offer/answer exchange with a throw-away peer on the same vnet, so
+	// the local description becomes CURRENT (signaling state stable). Answerer selects our
+	// role when no exchange is in flight; a pending local offer is always completed as offerer.
+	Answerer bool `json:"answerer,omitempty"`
 }
 
 type vfC39Case struct {
@@ -334,8 +339,85 @@ func vfC39Run(v *vfT, c vfC39Case) {
 	defer func() { _ = pc.Close() }()
 	closed := false
 	sawReject, sawAccept := false, false
+	var peers []*PeerConnection
+	defer func() {
+		for _, p := range peers {
+			_ = p.Close()
+		}
+	}()
 	for i, st := range c.Steps {
 		switch st.Op {
+		case "exchange":
+			v.Label("op=exchange")
+			if closed || pc.CurrentLocalDescription() != nil {
+				continue
+			}
+			peer, err := vfC39API.NewPeerConnection(Configuration{})
+			if err != nil {
+				v.Skip("NewPeerConnection(peer): " + err.Error())
+			}
+			peers = append(peers, peer)
+			pending := pc.PendingLocalDescription()
+			switch {
+			case pending != nil || !st.Answerer:
+				// our PeerConnection is the offerer
+				if pending == nil {
+					if _, err := pc.CreateDataChannel("vfC39", nil); err != nil {
+						v.Skip("CreateDataChannel: " + err.Error())
+					}
+					offer, err := pc.CreateOffer(nil)
+					if err != nil {
+						v.Skip("CreateOffer: " + err.Error())
+					}
+					if err := pc.SetLocalDescription(offer); err != nil {
+						v.Skip("SetLocalDescription(offer): " + err.Error())
+					}
+					pending = &offer
+				}
+				if err := peer.SetRemoteDescription(SessionDescription{Type: SDPTypeOffer, SDP: pending.SDP}); err != nil {
+					v.Skip("peer.SetRemoteDescription(offer): " + err.Error())
+				}
+				ans, err := peer.CreateAnswer(nil)
+				if err != nil {
+					v.Skip("peer.CreateAnswer: " + err.Error())
+				}
+				if err := peer.SetLocalDescription(ans); err != nil {
+					v.Skip("peer.SetLocalDescription(answer): " + err.Error())
+				}
+				if err := pc.SetRemoteDescription(ans); err != nil {
+					v.Skip("SetRemoteDescription(answer): " + err.Error())
+				}
+				v.Label("exchange-completed-as-offerer")
+			default:
+				if _, err := peer.CreateDataChannel("vfC39", nil); err != nil {
+					v.Skip("peer.CreateDataChannel: " + err.Error())
+				}
+				offer, err := peer.CreateOffer(nil)
+				if err != nil {
+					v.Skip("peer.CreateOffer: " + err.Error())
+				}
+				if err := peer.SetLocalDescription(offer); err != nil {
+					v.Skip("peer.SetLocalDescription(offer): " + err.Error())
+				}
+				if err := pc.SetRemoteDescription(offer); err != nil {
+					v.Skip("SetRemoteDescription(offer): " + err.Error())
+				}
+				ans, err := pc.CreateAnswer(nil)
+				if err != nil {
+					v.Skip("CreateAnswer: " + err.Error())
+				}
+				if err := pc.SetLocalDescription(ans); err != nil {
+					v.Skip("SetLocalDescription(answer): " + err.Error())
+				}
+				if err := peer.SetRemoteDescription(ans); err != nil {
+					v.Skip("peer.SetRemoteDescription(answer): " + err.Error())
+				}
+				v.Label("exchange-completed-as-answerer")
+			}
+			if pc.CurrentLocalDescription() == nil || pc.PendingLocalDescription() != nil || pc.SignalingState() != SignalingStateStable {
+				v.Skip("exchange did not leave the connection stable with a current local description")
+			}
+			continue
 		case "close":
 			_ = pc.Close()
 			closed = true
@@ -368,8 +450,10 @@ func vfC39Run(v *vfT, c vfC39Case) {
 		state := "open"
 		if closed {
 			state = "closed"
+		} else if pc.CurrentLocalDescription() != nil && pc.PendingLocalDescription() == nil {
+			state = "open+current-local"
 		} else if hasLocal {
-			state = "open+local"
+			state = "open+pending-local"
 		}
 		v.Label(fmt.Sprintf("set:state=%s,touches=%s,servers-valid=%v", state, touch, srvOK))
 		where := fmt.Sprintf("step %d (%s)", i, state)
@@ -519,7 +603,7 @@ func vfC39GenCfg(t *rapid.T, base *vfC39Cfg, initial bool) vfC39Cfg {
 
 func TestVerif_C39_Sequences(t *testing.T) {
 	vfProperty(t, "C39", vfOpts{
-		Rule: "initial Configuration (policies, identity, 0..2 certificates from a pool, pool size 0/1, valid ICE servers) x 1..6 operations: SetConfiguration whose fields are independently unchanged / zero / changed (certificates: same, same re-imported from PEM, one replaced, reordered, longer, shorter; ICE servers valid or one of 8 invalid forms), 'create the local description', Close; non-trivial = the sequence contains both a rejected and an accepted SetConfiguration",
+		Rule: "initial Configuration (policies, identity, 0..2 certificates from a pool, pool size 0/1, valid ICE servers) x 1..8 operations: SetConfiguration whose fields are independently unchanged / zero / changed (certificates: same, same re-imported from PEM, one replaced, reordered, longer, shorter; ICE servers valid or one of 8 invalid forms), 'create the local description' (pending), 'complete an offer/answer exchange with a throw-away peer as offerer or answerer' (local description becomes current, state stable), Close; non-trivial = the sequence contains both a rejected and an accepted SetConfiguration",
 		Assumptions: []string{"a zero-valued field in the argument means 'leave unchanged' (pion's documented convention), so only non-zero differing values are attempts to change",
 			"a pure reordering of the same certificates is counted as ambiguous and only the weaker clauses are asserted on it",
 			"ICE-server validity comes from a hand-labelled table (W3C set-the-configuration 11.3.x, RFC 7064/7065)",
@@ -528,14 +612,17 @@ func TestVerif_C39_Sequences(t *testing.T) {
 	}, func(v *vfT) vfC39Case {
 		var c vfC39Case
 		c.Init = vfC39GenCfg(v.R, nil, true)
-		n := rapid.IntRange(1, 6).Draw(v.R, "nsteps")
+		n := rapid.IntRange(1, 8).Draw(v.R, "nsteps")
 		for i := 0; i < n; i++ {
 			var st vfC39Step
-			switch rapid.IntRange(0, 9).Draw(v.R, "op") {
+			switch rapid.IntRange(0, 11).Draw(v.R, "op") {
 			case 0:
 				st.Op = "close"
 			case 1, 2:
 				st.Op = "local"
+			case 3, 4, 5:
+				st.Op = "exchange"
+				st.Answerer = rapid.Bool().Draw(v.R, "answerer")
 			default:
 				st.Op = "set"
 				st.Cfg = vfC39GenCfg(v.R, &c.Init, false)
